@@ -20,6 +20,14 @@ from pyvc.verify import Config, Target
 
 LV = z3.Function('LV', z3.IntSort(), z3.IntSort())
 PROD = z3.Function('PROD', z3.IntSort(), z3.IntSort())
+OPS = z3.Function('OPS', z3.IntSort(), z3.IntSort(), z3.IntSort())
+# CNT(x, k): number of operand references (stem-resolved, 4 columns, with multiplicity) to slot x by the ops [0, k)
+CNT = z3.Function('CNT', z3.IntSort(), z3.IntSort(), z3.IntSort())
+
+
+def cnt_step(res, k):
+    x = z3.Int('cx')
+    return z3.ForAll([x], CNT(x, k + 1) == CNT(x, k) + z3.Sum([z3.If(res(OPS(k, c)) == x, 1, 0) for c in range(2, 6)]))
 
 
 class Method(Model):
@@ -53,6 +61,10 @@ class IntList(Model):
 
     def m_len(self, ex, st, node):
         return self.length(st)
+
+    def m_iter(self, ex, st, node):
+        arr = self.arr(st)
+        return SymIter(self.length(st), lambda ex_, st_, k: SInt(z3.Select(arr, to_int(k))))
 
     def m_getattr(self, ex, st, name, node):
         if name == 'append':
@@ -135,7 +147,6 @@ def phase(stmts):
 def levelise_config():
     def setup(ex):
         st = State()
-        OPS = z3.Function('OPS', z3.IntSort(), z3.IntSort(), z3.IntSort())
         n, nlocs, nlines = ex.fv('n_ops', 'int'), ex.fv('c_locs_len', 'int'), ex.fv('n_lines', 'int')
         st.assume(SBool(z3.And(n.e >= 0, nlocs.e > 0, nlines.e >= 0, nlines.e + 3 <= nlocs.e)))
         ops = Table2(OPS, n, 9)
@@ -156,6 +167,7 @@ def levelise_config():
         # single production: PROD(out_j) = j unless the output is the tmp slot
         req.append(z3.ForAll([j], z3.Implies(z3.And(inr, OPS(j, 1) != tmp), PROD(OPS(j, 1)) == j)))
         req.append(z3.ForAll([x], z3.Or(PROD(x) == -1, z3.And(PROD(x) >= 0, PROD(x) < n.e, OPS(PROD(x), 1) == x, x != tmp))))
+        req.append(z3.ForAll([x], CNT(x, 0) == 0))
         for r in req:
             st.assume(SBool(r))
         selfo = SObj.new(st, 'self', ops=ops, c_locs_len=nlocs)
@@ -173,6 +185,7 @@ def levelise_config():
         cl = to_int(st.env['current_level'])
         bump = z3.Or(*[z3.Select(lev, x) >= cl for x in operands(ex, k)])
         st.assume(SBool(LV(k) == z3.If(bump, cl + 1, cl)))
+        st.assume(SBool(cnt_step(g['res'], k)))
 
     def inv(ex, st):
         g = ex.g
@@ -199,6 +212,11 @@ def levelise_config():
         yield 'I4:levels[x] is the level of the producer of x among the processed ops, else 0', \
             SBool(z3.ForAll([x], z3.Implies(x != g['tmp'], z3.Select(lev, x) == z3.If(z3.And(PROD(x) >= 0, PROD(x) < k), LV(PROD(x)), 0))))
         yield 'I4b:the tmp slot never exceeds the current level', SBool(z3.Select(lev, g['tmp']) <= cl)
+        if not isinstance(e.get('ref_count'), IntArr):
+            yield 'ref_count is an array', False
+            return
+        yield 'I6:ref_count[x] = number of operand references to x by the ops passed so far', \
+            SBool(z3.ForAll([x], z3.Select(st.heap[e['ref_count'].name], x) == CNT(x, k)))
         for c in range(2, 6):
             xo = g['res'](g['OPS'](j, c))
             yield f'I5:operand {c - 2} produced by an op lies in a strictly lower level', \
@@ -230,6 +248,13 @@ def levelise_config():
             xo = g['res'](g['OPS'](j, c))
             yield f'S2:operand {c - 2} of every op is a source or produced in a strictly earlier level', \
                 SBool(z3.ForAll([j], z3.Implies(z3.And(0 <= j, j < n, PROD(xo) >= 0), LV(PROD(xo)) < LV(j))))
+        x = z3.Int('x')
+        rc = st.env.get('ref_count')
+        if not isinstance(rc, IntArr):
+            yield 'ref_count is an array', False
+            return
+        yield 'RC:ref_count[x] = number of operand references (stem-resolved, with multiplicity) to x over all ops', \
+            SBool(z3.ForAll([x], z3.Select(st.heap[rc.name], x) == CNT(x, n)))
         ex.prove(st, 'mustfail:there is never more than one level', SBool(ln == 1), ex.fn, expect='refuted')
 
     contract = {'post': post, 'assign_hook': assign_hook, 'merge_ifs': True,
